@@ -262,24 +262,24 @@ def _sort_cmp():
     log.append(dict(pattern="std::sort(sorted_edges..., [&](const Edge &%s, const Edge &%s) {BODY})" % (e1, e2), replacement="BODY", fired=1, expected=1, kind="extract", note="comparator lambda body"))
     body = X.drop_local_const(body, log)
     body = X.rewrite(body, [
-        (r"_weight_map\[%s\]" % re.escape(e1), "w1", (1, 4), "container-api", "weight of the first edge"),
-        (r"_weight_map\[%s\]" % re.escape(e2), "w2", (1, 4), "container-api", "weight of the second edge"),
-        (r"boost::get\(_weight_map, %s\)" % re.escape(e1), "w1", (0, 4), "container-api", ""),
-        (r"boost::get\(_weight_map, %s\)" % re.escape(e2), "w2", (0, 4), "container-api", ""),
+        (r"_weight_map\[%s\]" % re.escape(e1), "vp_w1", (1, 4), "container-api", "weight of the first edge"),
+        (r"_weight_map\[%s\]" % re.escape(e2), "vp_w2", (1, 4), "container-api", "weight of the second edge"),
+        (r"boost::get\(_weight_map, %s\)" % re.escape(e1), "vp_w1", (0, 4), "container-api", ""),
+        (r"boost::get\(_weight_map, %s\)" % re.escape(e2), "vp_w2", (0, 4), "container-api", ""),
         (r"std::numeric_limits<WeightType>::epsilon\(\)", "2.220446049250313e-16", (0, 4), "type-binding", "WeightType = double"),
         (r"\bWeightType\b", "double", (0, 8), "type-binding", ""),
         (r"\bauto\b", "double", (0, 8), "type-binding", "locals of the comparator hold weights"),
     ], log)
     fn = r"""
 #include <stdbool.h>
-bool cmp(double w1, double w2)
-__CPROVER_requires(w1 == w1 && w2 == w2)
+bool cmp(double vp_w1, double vp_w2)
+__CPROVER_requires(vp_w1 == vp_w1 && vp_w2 == vp_w2)
 __CPROVER_assigns()
 /* the scan order is the order of the weights themselves: no tolerance, no secondary key that could override a strict difference */
-__CPROVER_ensures(__CPROVER_return_value == (w1 < w2))
+__CPROVER_ensures(__CPROVER_return_value == (vp_w1 < vp_w2))
 {%(BODY)s}
 double vp_in_w1, vp_in_w2;
-void h_cmp(void) { double w1, w2; vp_in_w1 = w1; vp_in_w2 = w2; bool r = cmp(w1, w2); (void) r; __CPROVER_assert(0, "VP_REACH end"); }
+void h_cmp(void) { double x1, x2; vp_in_w1 = x1; vp_in_w2 = x2; bool r = cmp(x1, x2); (void) r; __CPROVER_assert(0, "VP_REACH end"); }
 """ % dict(BODY=body)
     return dict(unit="K17c_sort_comparator", site="K17c_sort_comparator", lang="c", source=rel + " (construct_spanner: comparator of the edge sort)", rewrites=log,
                 text=fn, entry="h_cmp", enforce="cmp", mode="proof", timeout=600,
